@@ -1,5 +1,555 @@
-//! C11 — not built yet.
-#![allow(unused)]
+//! C11 — factorisations (Cholesky, pivoted LU, triangular solves, determinant, pivot parity):
+//! case generation for the Coq correspondence and the failure-search oracle.
+#![allow(clippy::needless_range_loop)]
 use crate::util::*;
-pub fn gen(_tier: &str, _seed: u64, _outdir: &str) { eprintln!("C11: gen not implemented"); std::process::exit(3); }
-pub fn oracle(_tier: &str, _seed: u64) -> (u64, Vec<Finding>) { eprintln!("C11: oracle not implemented"); std::process::exit(3); }
+use compute::linalg::{
+    backward_substitution, cholesky, cholesky_solve, forward_substitution, ipiv_parity, is_positive_definite,
+    is_symmetric, lu, lu_solve, Matrix, Solve, Vector,
+};
+
+// ------------------------------------------------------------------------------------------------
+// input classes
+const CLASSES: [&str; 14] = [
+    "dense-real", "integer", "singular", "rank-deficient", "zero-leading-pivots", "permutation", "cyclic-shift",
+    "spd-real", "spd-integer", "indefinite-posdiag", "special-values", "graded", "lower-triangular", "upper-triangular",
+];
+
+fn perm(r: &mut Rng, n: usize) -> Vec<usize> {
+    let mut p: Vec<usize> = (0..n).collect();
+    for i in (1..n).rev() { let j = r.below(i as u64 + 1) as usize; p.swap(i, j); }
+    p
+}
+
+fn special(r: &mut Rng) -> f64 {
+    *r.pick(&[f64::NAN, f64::INFINITY, f64::NEG_INFINITY, -0.0, 0.0, 5e-324, -2.2250738585072014e-308, 1e300, -1e300, 1e-300, 1.0, -1.0])
+}
+
+fn gen_matrix(r: &mut Rng, n: usize, class: usize) -> Vec<f64> {
+    let mut a = vec![0.0; n * n];
+    match class {
+        0 => for x in a.iter_mut() { *x = r.uniform(-4.0, 4.0) },
+        1 => for x in a.iter_mut() { *x = r.small_int(9) },
+        2 => { // singular: a duplicated row, a zero column or a zero row
+            for x in a.iter_mut() { *x = r.small_int(5) }
+            if n >= 2 {
+                match r.below(3) {
+                    0 => { let (i, k) = (r.below(n as u64) as usize, r.below(n as u64) as usize); if i != k { for j in 0..n { a[i * n + j] = a[k * n + j]; } } else { for j in 0..n { a[i * n + j] = 0.0; } } }
+                    1 => { let c = r.below(n as u64) as usize; for i in 0..n { a[i * n + c] = 0.0; } }
+                    _ => { let i = r.below(n as u64) as usize; for j in 0..n { a[i * n + j] = 0.0; } }
+                }
+            } else { a[0] = 0.0; }
+        }
+        3 => { // rank k < n: sum of k integer outer products
+            let k = if n >= 2 { 1 + r.below(n as u64 - 1) as usize } else { 0 };
+            for _ in 0..k {
+                let u: Vec<f64> = (0..n).map(|_| r.small_int(3)).collect();
+                let v: Vec<f64> = (0..n).map(|_| r.small_int(3)).collect();
+                for i in 0..n { for j in 0..n { a[i * n + j] += u[i] * v[j]; } }
+            }
+        }
+        4 => { // leading k x k block is zero
+            for x in a.iter_mut() { *x = r.small_int(9) }
+            let k = 1 + r.below(n.max(2) as u64 / 2) as usize;
+            for i in 0..k.min(n) { for j in 0..k.min(n) { a[i * n + j] = 0.0; } }
+        }
+        5 => { // (scaled) permutation matrix
+            let p = perm(r, n); let scaled = r.coin(0.5);
+            for i in 0..n { a[i * n + p[i]] = if scaled { let s = r.small_int(7); if s == 0.0 { 1.0 } else { s } } else { 1.0 }; }
+        }
+        6 => { // every column pivots on the next row: sub-diagonal large, diagonal small
+            for i in 0..n { for j in 0..n { a[i * n + j] = r.small_int(2); } }
+            for j in 0..n { a[((j + 1) % n) * n + j] = 16.0 + r.small_int(3); }
+        }
+        7 => { // SPD, real: B.B^T + n.I
+            let b: Vec<f64> = (0..n * n).map(|_| r.uniform(-1.0, 1.0)).collect();
+            for i in 0..n { for j in 0..=i { let mut s = 0.0; for k in 0..n { s += b[i * n + k] * b[j * n + k]; } a[i * n + j] = s; a[j * n + i] = s; } a[i * n + i] += n as f64; }
+        }
+        8 => { // SPD, integer: B.B^T + I (exact)
+            let b: Vec<f64> = (0..n * n).map(|_| r.small_int(3)).collect();
+            for i in 0..n { for j in 0..=i { let mut s = 0.0; for k in 0..n { s += b[i * n + k] * b[j * n + k]; } a[i * n + j] = s; a[j * n + i] = s; } a[i * n + i] += 1.0; }
+        }
+        9 => { // symmetric, positive diagonal, indefinite (off-diagonal dominates)
+            for i in 0..n { for j in 0..i { let x = r.small_int(9); a[i * n + j] = x; a[j * n + i] = x; } a[i * n + i] = 1.0 + r.below(3) as f64; }
+        }
+        10 => { // special values sprinkled over a symmetric or a dense matrix
+            let sym = r.coin(0.5);
+            for i in 0..n { for j in 0..n { a[i * n + j] = r.uniform(-2.0, 2.0); } }
+            if sym { for i in 0..n { for j in 0..i { a[j * n + i] = a[i * n + j]; } a[i * n + i] = a[i * n + i].abs() + 1.0; } }
+            let k = 1 + r.below(3) as usize;
+            for _ in 0..k { let (i, j) = (r.below(n as u64) as usize, r.below(n as u64) as usize); let s = special(r); a[i * n + j] = s; if sym { a[j * n + i] = s; } }
+        }
+        11 => { // rows graded over many orders of magnitude
+            for i in 0..n { let s = (10.0f64).powi(r.range(-8, 8) as i32); for j in 0..n { a[i * n + j] = s * r.uniform(-1.0, 1.0); } }
+        }
+        12 => { for i in 0..n { for j in 0..=i { a[i * n + j] = r.uniform(-3.0, 3.0); } if r.coin(0.85) && a[i * n + i].abs() < 0.25 { a[i * n + i] = 1.5; } } if n > 0 && r.coin(0.1) { let i = r.below(n as u64) as usize; a[i * n + i] = 0.0; } }
+        _ => { for i in 0..n { for j in i..n { a[i * n + j] = r.uniform(-3.0, 3.0); } if r.coin(0.85) && a[i * n + i].abs() < 0.25 { a[i * n + i] = -1.5; } } if n > 0 && r.coin(0.1) { let i = r.below(n as u64) as usize; a[i * n + i] = 0.0; } }
+    }
+    a
+}
+
+fn rhs(r: &mut Rng, n: usize) -> Vec<f64> { if r.coin(0.5) { (0..n).map(|_| r.small_int(9)).collect() } else { (0..n).map(|_| r.uniform(-4.0, 4.0)).collect() } }
+fn transpose_sq(a: &[f64], n: usize) -> Vec<f64> { let mut t = vec![0.0; n * n]; for i in 0..n { for j in 0..n { t[j * n + i] = a[i * n + j]; } } t }
+
+fn nat(n: usize) -> Tm { Tm::Nat(n as u64) }
+fn pv(p: &[i32]) -> Tm { Tm::L(p.iter().map(|x| Tm::Nat(*x as u64)).collect()) }
+fn mat_out(m: &Matrix) -> Vec<f64> { let mut v = vec![m.nrows as f64, m.ncols as f64]; v.extend_from_slice(&m.data); v }
+fn bool_out(b: bool) -> Vec<f64> { vec![if b { 1.0 } else { 0.0 }] }
+fn mk(d: &[f64], r: usize, c: usize) -> Matrix { Matrix::new(d.to_vec(), r as i32, c as i32) }
+fn is_id(p: &[i32]) -> bool { p.iter().enumerate().all(|(i, x)| *x == i as i32) }
+
+/// every view of one square matrix `a` (order n) the property observes
+fn emit_all(cs: &mut Cases, r: &mut Rng, a: &[f64], n: usize, cname: &str) {
+    let b = rhs(r, n);
+    let nt2 = n >= 2;
+    // --- LU family
+    let res = catch(|| lu(a));
+    let swapped = res.as_ref().map(|(_, p)| !is_id(p)).unwrap_or(false);
+    let tag = |s: &str| format!("{}/{}{}", s, cname, if swapped { "/swap" } else { "" });
+    let nt = nt2 && swapped;
+    cs.push(app("CLu", vec![fl(a), outcome_list(&res.clone().map(|(l, p)| { let mut v = l; v.extend(p.iter().map(|x| *x as f64)); v }))]), &tag("lu"), nt);
+    if n >= 1 {
+        let resm = catch(|| { let (l, p) = mk(a, n, n).lu(); let mut v = mat_out(&l); v.extend(p.iter().map(|x| *x as f64)); v });
+        cs.push(app("CLuM", vec![nat(n), nat(n), fl(a), outcome_list(&resm)]), &tag("Matrix::lu"), nt);
+        let d = catch(|| vec![mk(a, n, n).det()]);
+        cs.push(app("CDet", vec![nat(n), nat(n), fl(a), outcome_list(&d)]), &tag("Matrix::det"), nt);
+        let s = catch(|| mk(a, n, n).solve(&Vector::new(b.clone())).v);
+        cs.push(app("CSolveM", vec![nat(n), nat(n), fl(a), fl(&b), outcome_list(&s)]), &tag("Matrix::solve"), nt);
+    }
+    if let Ok((l, p)) = &res {
+        let x = catch(|| lu_solve(l, p, &b));
+        cs.push(app("CLuSolve", vec![fl(l), pv(p), fl(&b), outcome_list(&x)]), &tag("lu_solve"), nt);
+        let par = catch(|| vec![ipiv_parity(p) as f64]);
+        cs.push(app("CParity", vec![pv(p), outcome_list(&par)]), "ipiv_parity/from-lu", nt);
+        if n >= 1 {
+            let xm = catch(|| mk(l, n, n).lu_solve(p, &Vector::new(b.clone())).v);
+            cs.push(app("CLuSolveM", vec![nat(n), nat(n), fl(l), pv(p), fl(&b), outcome_list(&xm)]), &tag("Matrix::lu_solve"), nt);
+            let dd = catch(|| vec![mk(l, n, n).lu_det(p)]);
+            cs.push(app("CLuDet", vec![nat(n), nat(n), fl(l), pv(p), outcome_list(&dd)]), &tag("Matrix::lu_det"), nt);
+            if r.coin(0.25) {
+                let k = 1 + r.below(3) as usize;
+                let s: Vec<f64> = (0..n * k).map(|_| r.small_int(9)).collect();
+                let xs = catch(|| mat_out(&mk(l, n, n).lu_solve(p, &mk(&s, n, k))));
+                cs.push(app("CLuSolveMM", vec![nat(n), nat(n), fl(l), pv(p), nat(n), nat(k), fl(&s), outcome_list(&xs)]), &tag("Matrix::lu_solve(Matrix)"), nt);
+                let xs = catch(|| mat_out(&mk(a, n, n).solve(&mk(&s, n, k))));
+                cs.push(app("CSolveMM", vec![nat(n), nat(n), fl(a), nat(n), nat(k), fl(&s), outcome_list(&xs)]), &tag("Matrix::solve(Matrix)"), nt);
+            }
+        }
+    }
+    // --- predicates
+    let sy = catch(|| bool_out(is_symmetric(a)));
+    let symmetric = sy == Ok(vec![1.0]);
+    cs.push(app("CIsSym", vec![fl(a), outcome_list(&sy)]), &format!("is_symmetric/{}", cname), nt2);
+    cs.push(app("CIsPD", vec![fl(a), outcome_list(&catch(|| bool_out(is_positive_definite(a))))]), &format!("is_positive_definite/{}", cname), nt2);
+    if n >= 1 {
+        cs.push(app("CIsSymM", vec![nat(n), nat(n), fl(a), outcome_list(&catch(|| bool_out(mk(a, n, n).is_symmetric())))]), &format!("Matrix::is_symmetric/{}", cname), nt2);
+        cs.push(app("CIsPDM", vec![nat(n), nat(n), fl(a), outcome_list(&catch(|| bool_out(mk(a, n, n).is_positive_definite())))]), &format!("Matrix::is_positive_definite/{}", cname), nt2);
+    }
+    // --- Cholesky family (panics unless symmetric within EPSILON)
+    let ch = catch(|| cholesky(a));
+    let ctag = |s: &str| format!("{}/{}{}", s, cname, if symmetric { "" } else { "/rejected" });
+    cs.push(app("CChol", vec![fl(a), outcome_list(&ch)]), &ctag("cholesky"), nt2);
+    if n >= 1 {
+        let chm = catch(|| mat_out(&mk(a, n, n).cholesky()));
+        cs.push(app("CCholM", vec![nat(n), nat(n), fl(a), outcome_list(&chm)]), &ctag("Matrix::cholesky"), nt2);
+    }
+    if let Ok(l) = &ch {
+        let x = catch(|| cholesky_solve(l, &b));
+        cs.push(app("CCholSolve", vec![fl(l), fl(&b), outcome_list(&x)]), &ctag("cholesky_solve"), nt2);
+        if n >= 1 {
+            let xm = catch(|| mk(l, n, n).cholesky_solve(&Vector::new(b.clone())).v);
+            cs.push(app("CCholSolveM", vec![nat(n), nat(n), fl(l), fl(&b), outcome_list(&xm)]), &ctag("Matrix::cholesky_solve"), nt2);
+            if r.coin(0.3) {
+                let k = 1 + r.below(3) as usize;
+                let s: Vec<f64> = (0..n * k).map(|_| r.small_int(9)).collect();
+                let xs = catch(|| mat_out(&mk(l, n, n).cholesky_solve(&mk(&s, n, k))));
+                cs.push(app("CCholSolveMM", vec![nat(n), nat(n), fl(l), nat(n), nat(k), fl(&s), outcome_list(&xs)]), &ctag("Matrix::cholesky_solve(Matrix)"), nt2);
+            }
+        }
+        emit_subst(cs, l, &transpose_sq(l, n), &b, n, &format!("chol-factor-of-{}", cname));
+    }
+}
+
+/// triangular solves on `lo` (used as lower) and `up` (used as upper), slice and Matrix forms
+fn emit_subst(cs: &mut Cases, lo: &[f64], up: &[f64], b: &[f64], n: usize, cname: &str) {
+    let nt = n >= 2;
+    cs.push(app("CFwd", vec![fl(lo), fl(b), outcome_list(&catch(|| forward_substitution(lo, b)))]), &format!("forward_substitution/{}", cname), nt);
+    cs.push(app("CBwd", vec![fl(up), fl(b), outcome_list(&catch(|| backward_substitution(up, b)))]), &format!("backward_substitution/{}", cname), nt);
+    if n >= 1 {
+        cs.push(app("CFwdM", vec![nat(n), nat(n), fl(lo), fl(b), outcome_list(&catch(|| mk(lo, n, n).forward_substitution(b).v))]), &format!("Matrix::forward_substitution/{}", cname), nt);
+        cs.push(app("CBwdM", vec![nat(n), nat(n), fl(up), fl(b), outcome_list(&catch(|| mk(up, n, n).backward_substitution(b).v))]), &format!("Matrix::backward_substitution/{}", cname), nt);
+    }
+}
+
+fn all_perms(n: usize) -> Vec<Vec<i32>> {
+    fn go(cur: &mut Vec<i32>, used: &mut Vec<bool>, n: usize, out: &mut Vec<Vec<i32>>) {
+        if cur.len() == n { out.push(cur.clone()); return; }
+        for v in 0..n { if !used[v] { used[v] = true; cur.push(v as i32); go(cur, used, n, out); cur.pop(); used[v] = false; } }
+    }
+    let mut out = vec![]; go(&mut vec![], &mut vec![false; n], n, &mut out); out
+}
+
+pub fn gen(tier: &str, seed: u64, outdir: &str) {
+    let mut r = Rng::new(seed ^ 0xC11);
+    let mut cs = Cases::new("C11");
+    let thorough = tier == "thorough";
+    // 1. every class x every order 1..=12 (quick: one matrix each; thorough: six each) + larger orders in thorough
+    let reps = if thorough { 6 } else { 1 };
+    for n in 1..=12usize { for c in 0..CLASSES.len() { for _ in 0..reps {
+        let a = gen_matrix(&mut r, n, c);
+        emit_all(&mut cs, &mut r, &a, n, CLASSES[c]);
+        if c >= 12 { let b = rhs(&mut r, n); emit_subst(&mut cs, &a, &a, &b, n, CLASSES[c]); }
+    }}}
+    if thorough {
+        for n in 13..=32usize { for c in 0..CLASSES.len() {
+            let a = gen_matrix(&mut r, n, c);
+            emit_all(&mut cs, &mut r, &a, n, CLASSES[c]);
+        }}
+    } else {
+        for n in [16usize, 17, 24] { for c in [0usize, 6, 7] { let a = gen_matrix(&mut r, n, c); emit_all(&mut cs, &mut r, &a, n, CLASSES[c]); } }
+    }
+    // triangular solves: dense input to the slice forms (they never look at the other triangle), special values, -0.0 above the diagonal
+    for n in 1..=(if thorough { 20usize } else { 10 }) {
+        let a = gen_matrix(&mut r, n, 0); let b = rhs(&mut r, n);
+        emit_subst(&mut cs, &a, &a, &b, n, "dense");
+        let mut lo = gen_matrix(&mut r, n, 12); let mut up = gen_matrix(&mut r, n, 13);
+        if n >= 2 { lo[1] = -0.0; up[n] = -0.0; let s = special(&mut r); lo[n] = s; up[1] = s; }
+        emit_subst(&mut cs, &lo, &up, &b, n, "triangular-special");
+    }
+    // symmetry tolerance: one ulp of asymmetry is accepted below 1, rejected from 2 up
+    for n in 2..=5usize { for big in [false, true] {
+        let mut a = gen_matrix(&mut r, n, 7);
+        let v: f64 = if big { 2.5 } else { 0.75 };
+        a[1] = v; a[n] = f64::from_bits(v.to_bits() + 1);
+        emit_all(&mut cs, &mut r, &a, n, if big { "spd-asymmetric-1ulp-above-2" } else { "spd-asymmetric-1ulp-below-1" });
+    }}
+    // 2. ipiv_parity: every permutation of 0..n
+    for n in 0..=(if thorough { 7usize } else { 5 }) {
+        for p in all_perms(n) {
+            let res = catch(|| vec![ipiv_parity(&p) as f64]);
+            cs.push(app("CParity", vec![pv(&p), outcome_list(&res)]), &format!("ipiv_parity/all-permutations-of-{}", n), !is_id(&p));
+        }
+    }
+    for _ in 0..(if thorough { 400 } else { 60 }) {
+        let n = 6 + r.below(27) as usize;
+        let p: Vec<i32> = perm(&mut r, n).iter().map(|x| *x as i32).collect();
+        let res = catch(|| vec![ipiv_parity(&p) as f64]);
+        cs.push(app("CParity", vec![pv(&p), outcome_list(&res)]), "ipiv_parity/random-permutation", true);
+    }
+    // 3. empty slices
+    let e: Vec<f64> = vec![]; let ep: Vec<i32> = vec![];
+    cs.push(app("CChol", vec![fl(&e), outcome_list(&catch(|| cholesky(&e)))]), "empty", false);
+    cs.push(app("CLu", vec![fl(&e), outcome_list(&catch(|| { let (l, p) = lu(&e); let mut v = l; v.extend(p.iter().map(|x| *x as f64)); v }))]), "empty", false);
+    cs.push(app("CLuSolve", vec![fl(&e), pv(&ep), fl(&e), outcome_list(&catch(|| lu_solve(&e, &ep, &e)))]), "empty", false);
+    cs.push(app("CCholSolve", vec![fl(&e), fl(&e), outcome_list(&catch(|| cholesky_solve(&e, &e)))]), "empty", false);
+    cs.push(app("CFwd", vec![fl(&e), fl(&e), outcome_list(&catch(|| forward_substitution(&e, &e)))]), "empty", false);
+    cs.push(app("CBwd", vec![fl(&e), fl(&e), outcome_list(&catch(|| backward_substitution(&e, &e)))]), "empty", false);
+    cs.push(app("CIsSym", vec![fl(&e), outcome_list(&catch(|| bool_out(is_symmetric(&e))))]), "empty", false);
+    cs.push(app("CIsPD", vec![fl(&e), outcome_list(&catch(|| bool_out(is_positive_definite(&e))))]), "empty", false);
+    // 4. malformed stream
+    for _ in 0..(if thorough { 1500 } else { 250 }) {
+        let la = r.below(18) as usize; let lb = r.below(6) as usize;
+        let a: Vec<f64> = (0..la).map(|_| r.small_int(4)).collect();
+        let b: Vec<f64> = (0..lb).map(|_| r.small_int(4)).collect();
+        let lp = r.below(6) as usize;
+        let p: Vec<i32> = (0..lp).map(|_| r.below(lp as u64 + 1) as i32).collect();
+        let t = |res: &Result<Vec<f64>, String>| if res.is_ok() { "malformed-stream/value" } else { "malformed-stream/panic" };
+        match r.below(10) {
+            0 => { let res = catch(|| cholesky(&a)); cs.push(app("CChol", vec![fl(&a), outcome_list(&res)]), t(&res), res.is_err()); }
+            1 => { let res = catch(|| { let (l, p) = lu(&a); let mut v = l; v.extend(p.iter().map(|x| *x as f64)); v }); cs.push(app("CLu", vec![fl(&a), outcome_list(&res)]), t(&res), res.is_err()); }
+            2 => { let res = catch(|| lu_solve(&a, &p, &b)); cs.push(app("CLuSolve", vec![fl(&a), pv(&p), fl(&b), outcome_list(&res)]), t(&res), res.is_err()); }
+            3 => { let res = catch(|| cholesky_solve(&a, &b)); cs.push(app("CCholSolve", vec![fl(&a), fl(&b), outcome_list(&res)]), t(&res), res.is_err()); }
+            4 => { let res = catch(|| forward_substitution(&a, &b)); cs.push(app("CFwd", vec![fl(&a), fl(&b), outcome_list(&res)]), t(&res), res.is_err()); }
+            5 => { let res = catch(|| backward_substitution(&a, &b)); cs.push(app("CBwd", vec![fl(&a), fl(&b), outcome_list(&res)]), t(&res), res.is_err()); }
+            6 => { let res = catch(|| vec![ipiv_parity(&p) as f64]); cs.push(app("CParity", vec![pv(&p), outcome_list(&res)]), t(&res), res.is_err()); }
+            7 => { // lu_solve with a square lu and a pivot vector that is too long / too short / out of range / repeated
+                let n = 1 + r.below(4) as usize; let l: Vec<f64> = (0..n * n).map(|_| r.small_int(4) + 0.5).collect(); let bb = rhs(&mut r, n);
+                let res = catch(|| lu_solve(&l, &p, &bb)); cs.push(app("CLuSolve", vec![fl(&l), pv(&p), fl(&bb), outcome_list(&res)]), t(&res), res.is_err());
+                let res = catch(|| mk(&l, n, n).lu_solve(&p, &Vector::new(bb.clone())).v); cs.push(app("CLuSolveM", vec![nat(n), nat(n), fl(&l), pv(&p), fl(&bb), outcome_list(&res)]), t(&res), res.is_err());
+                let res = catch(|| vec![mk(&l, n, n).lu_det(&p)]); cs.push(app("CLuDet", vec![nat(n), nat(n), fl(&l), pv(&p), outcome_list(&res)]), t(&res), res.is_err());
+            }
+            8 => { // Matrix methods on a non-square receiver (all must panic) or a right-hand side of the wrong length
+                let (rr, cc) = (1 + r.below(4) as usize, 1 + r.below(4) as usize);
+                let d: Vec<f64> = (0..rr * cc).map(|_| r.small_int(4)).collect();
+                if rr != cc {
+                    let res = catch(|| { let (l, p) = mk(&d, rr, cc).lu(); let mut v = mat_out(&l); v.extend(p.iter().map(|x| *x as f64)); v }); cs.push(app("CLuM", vec![nat(rr), nat(cc), fl(&d), outcome_list(&res)]), t(&res), res.is_err());
+                    let res = catch(|| vec![mk(&d, rr, cc).det()]); cs.push(app("CDet", vec![nat(rr), nat(cc), fl(&d), outcome_list(&res)]), t(&res), res.is_err());
+                    let res = catch(|| mat_out(&mk(&d, rr, cc).cholesky())); cs.push(app("CCholM", vec![nat(rr), nat(cc), fl(&d), outcome_list(&res)]), t(&res), res.is_err());
+                    let res = catch(|| bool_out(mk(&d, rr, cc).is_symmetric())); cs.push(app("CIsSymM", vec![nat(rr), nat(cc), fl(&d), outcome_list(&res)]), t(&res), true);
+                    let res = catch(|| bool_out(mk(&d, rr, cc).is_positive_definite())); cs.push(app("CIsPDM", vec![nat(rr), nat(cc), fl(&d), outcome_list(&res)]), t(&res), true);
+                } else {
+                    let res = catch(|| mk(&d, rr, cc).solve(&Vector::new(b.clone())).v); cs.push(app("CSolveM", vec![nat(rr), nat(cc), fl(&d), fl(&b), outcome_list(&res)]), t(&res), res.is_err());
+                    let mut lo = d.clone(); for i in 0..rr { for j in (i + 1)..cc { lo[i * cc + j] = 0.0; } lo[i * cc + i] = 2.0; }
+                    let res = catch(|| mk(&lo, rr, cc).forward_substitution(&b).v); cs.push(app("CFwdM", vec![nat(rr), nat(cc), fl(&lo), fl(&b), outcome_list(&res)]), t(&res), res.is_err());
+                    let res = catch(|| mk(&lo, rr, cc).cholesky_solve(&Vector::new(b.clone())).v); cs.push(app("CCholSolveM", vec![nat(rr), nat(cc), fl(&lo), fl(&b), outcome_list(&res)]), t(&res), res.is_err());
+                    let up = transpose_sq(&lo, rr);
+                    let res = catch(|| mk(&up, rr, cc).backward_substitution(&b).v); cs.push(app("CBwdM", vec![nat(rr), nat(cc), fl(&up), fl(&b), outcome_list(&res)]), t(&res), res.is_err());
+                    // a system matrix with the wrong number of rows
+                    let sr = 1 + r.below(4) as usize; let s: Vec<f64> = (0..sr * 2).map(|_| r.small_int(4)).collect();
+                    let res = catch(|| mat_out(&mk(&d, rr, cc).solve(&mk(&s, sr, 2)))); cs.push(app("CSolveMM", vec![nat(rr), nat(cc), fl(&d), nat(sr), nat(2), fl(&s), outcome_list(&res)]), t(&res), res.is_err());
+                }
+            }
+            _ => { // Matrix triangular solves on a receiver that is not triangular (must panic)
+                let n = 2 + r.below(3) as usize; let d = gen_matrix(&mut r, n, 1); let bb = rhs(&mut r, n);
+                let res = catch(|| mk(&d, n, n).forward_substitution(&bb).v); cs.push(app("CFwdM", vec![nat(n), nat(n), fl(&d), fl(&bb), outcome_list(&res)]), t(&res), res.is_err());
+                let res = catch(|| mk(&d, n, n).backward_substitution(&bb).v); cs.push(app("CBwdM", vec![nat(n), nat(n), fl(&d), fl(&bb), outcome_list(&res)]), t(&res), res.is_err());
+                let res = catch(|| mk(&d, n, n).cholesky_solve(&Vector::new(bb.clone())).v); cs.push(app("CCholSolveM", vec![nat(n), nat(n), fl(&d), fl(&bb), outcome_list(&res)]), t(&res), res.is_err());
+            }
+        }
+    }
+    cs.write(outdir, if thorough { 60 } else { 150 },
+             "14 input classes (dense, integer, singular, rank-deficient, zero leading block, (scaled) permutation, every-column-pivots-on-next-row, SPD real/integer, symmetric indefinite with positive diagonal, special values NaN/inf/-0/subnormal/huge, graded rows, lower/upper triangular) x every order 1..12 (thorough: 6 matrices each and orders 13..32), each matrix seen through every entry point (slice and Matrix forms of lu, lu_solve, det, lu_det, solve, cholesky, cholesky_solve, forward/backward substitution, is_symmetric, is_positive_definite); every permutation of 0..n (n <= 5 quick, 7 thorough) and random permutations through ipiv_parity; empty slices; a malformed stream (non-square lengths, wrong right-hand-side lengths, bad pivot vectors, non-square / non-triangular Matrix receivers). Non-trivial = order >= 2 and (LU family: at least one row swap; Cholesky family / substitutions / predicates: order >= 2), a non-identity permutation, a panic in the malformed stream; distinct by hash of the case term");
+}
+
+// ------------------------------------------------------------------------------------------------
+// failure-search oracle: the property's statement against the implementation only
+
+/// double-double accumulation of sum_k x_k*y_k (error-free product by Veltkamp/Dekker splitting)
+#[derive(Clone, Copy)]
+struct DD { hi: f64, lo: f64 }
+fn two_sum(a: f64, b: f64) -> (f64, f64) { let s = a + b; let bb = s - a; (s, (a - (s - bb)) + (b - bb)) }
+fn split(a: f64) -> (f64, f64) { let c = 134217729.0 * a; let h = c - (c - a); (h, a - h) }
+fn two_prod(a: f64, b: f64) -> (f64, f64) { let p = a * b; let (ah, al) = split(a); let (bh, bl) = split(b); (p, ((ah * bh - p) + ah * bl + al * bh) + al * bl) }
+impl DD {
+    fn zero() -> DD { DD { hi: 0.0, lo: 0.0 } }
+    fn add_f(self, x: f64) -> DD { let (s, e) = two_sum(self.hi, x); let (h, l) = two_sum(s, e + self.lo); DD { hi: h, lo: l } }
+    fn add_prod(self, a: f64, b: f64) -> DD { let (p, e) = two_prod(a, b); self.add_f(p).add_f(e) }
+    fn val(self) -> f64 { self.hi + self.lo }
+}
+const EPS: f64 = f64::EPSILON / 2.0; // unit roundoff
+
+/// Bareiss fraction-free determinant of an integer matrix, exact in i128
+fn bareiss(a: &[f64], n: usize) -> i128 {
+    let mut m: Vec<i128> = a.iter().map(|x| *x as i128).collect();
+    let mut sign = 1i128; let mut prev = 1i128;
+    for k in 0..n {
+        if m[k * n + k] == 0 {
+            let mut s = None;
+            for i in (k + 1)..n { if m[i * n + k] != 0 { s = Some(i); break; } }
+            match s { None => return 0, Some(i) => { for j in 0..n { m.swap(k * n + j, i * n + j); } sign = -sign; } }
+        }
+        for i in (k + 1)..n { for j in (k + 1)..n {
+            m[i * n + j] = (m[i * n + j] * m[k * n + k] - m[i * n + k] * m[k * n + j]) / prev;
+        }}
+        prev = m[k * n + k];
+    }
+    if n == 0 { 1 } else { sign * m[(n - 1) * n + (n - 1)] }
+}
+
+/// sign of a permutation vector by counting cycles (independent of the implementation)
+fn sign_by_cycles(p: &[i32]) -> i32 {
+    let n = p.len(); let mut seen = vec![false; n]; let mut s = 1;
+    for i in 0..n { if !seen[i] { let mut len = 0; let mut j = i; while !seen[j] { seen[j] = true; j = p[j] as usize; len += 1; } if len % 2 == 0 { s = -s; } } }
+    s
+}
+fn is_permutation(p: &[i32]) -> bool { let n = p.len(); let mut seen = vec![false; n]; p.iter().all(|x| { let k = *x as usize; *x >= 0 && k < n && !std::mem::replace(&mut seen[k], true) }) }
+fn finite(v: &[f64]) -> bool { v.iter().all(|x| x.is_finite()) }
+
+fn check_lu(out: &mut Vec<Finding>, form: &str, a: &[f64], n: usize, l: &[f64], p: &[i32], input: &str) {
+    let mut f = |class: &str, what: String| out.push(Finding { class: format!("{}:{}", form, class), what, input: input.to_string() });
+    if l.len() != n * n || p.len() != n { f("shape", format!("result has {} entries and {} pivots for order {}", l.len(), p.len(), n)); return; }
+    if !is_permutation(p) { f("pivots-not-a-permutation", format!("pivots = {:?}", p)); return; }
+    if !finite(l) { f("nonfinite-factors-of-finite-input", "LU factors of a finite, moderately sized matrix are not finite".into()); return; }
+    for i in 0..n { for k in 0..i { if l[i * n + k].abs() > 1.0 { f("multiplier-exceeds-1", format!("|l[{}][{}]| = {:e} > 1", i, k, l[i * n + k].abs())); return; } } }
+    // P.A = L.U to backward-error precision: |PA - LU|_ij <= 2.n.u.(|L||U|)_ij
+    for i in 0..n { for j in 0..n {
+        let mut s = DD::zero(); let mut mag = 0.0;
+        for k in 0..=i.min(j) { let lik = if k == i { 1.0 } else { l[i * n + k] }; s = s.add_prod(lik, l[k * n + j]); mag += (lik * l[k * n + j]).abs(); }
+        let res = s.add_f(-a[p[i] as usize * n + j]).val().abs();
+        if res > 2.0 * (n as f64 + 1.0) * EPS * mag + 1e-300 { f("does-not-reconstruct", format!("(L.U - P.A)[{}][{}] = {:e}, allowed {:e}", i, j, res, 2.0 * (n as f64 + 1.0) * EPS * mag)); return; }
+    }}
+}
+
+fn check_chol(out: &mut Vec<Finding>, form: &str, a: &[f64], n: usize, l: &[f64], input: &str) {
+    let mut f = |class: &str, what: String| out.push(Finding { class: format!("{}:{}", form, class), what, input: input.to_string() });
+    if l.len() != n * n { f("shape", format!("{} entries for order {}", l.len(), n)); return; }
+    if !finite(l) { f("nonfinite-factor-of-spd-input", "Cholesky factor of an SPD matrix is not finite".into()); return; }
+    for i in 0..n { for j in (i + 1)..n { if l[i * n + j] != 0.0 { f("not-lower-triangular", format!("l[{}][{}] = {:e}", i, j, l[i * n + j])); return; } } if !(l[i * n + i] > 0.0) { f("diagonal-not-positive", format!("l[{}][{}] = {:e}", i, i, l[i * n + i])); return; } }
+    for i in 0..n { for j in 0..=i {
+        let mut s = DD::zero(); let mut mag = 0.0;
+        for k in 0..=j { s = s.add_prod(l[i * n + k], l[j * n + k]); mag += (l[i * n + k] * l[j * n + k]).abs(); }
+        let res = s.add_f(-a[i * n + j]).val().abs();
+        if res > 2.0 * (n as f64 + 2.0) * EPS * mag + 1e-300 { f("does-not-reconstruct", format!("(L.L^T - A)[{}][{}] = {:e}, allowed {:e}", i, j, res, 2.0 * (n as f64 + 2.0) * EPS * mag)); return; }
+    }}
+}
+
+/// |T.x - b|_i <= 2(n+1)u (|T||x|)_i for a triangular T (lower: uses j <= i, upper: j >= i)
+fn check_tri(out: &mut Vec<Finding>, form: &str, t: &[f64], n: usize, lower: bool, x: &[f64], b: &[f64], input: &str) {
+    if x.len() != n { out.push(Finding { class: format!("{}:shape", form), what: format!("solution has {} entries for order {}", x.len(), n), input: input.to_string() }); return; }
+    if !finite(x) { out.push(Finding { class: format!("{}:nonfinite-solution-of-regular-system", form), what: "non-finite solution for a triangular system with a well-separated diagonal".into(), input: input.to_string() }); return; }
+    for i in 0..n {
+        let mut s = DD::zero(); let mut mag = 0.0;
+        let (lo, hi) = if lower { (0, i + 1) } else { (i, n) };
+        for j in lo..hi { s = s.add_prod(t[i * n + j], x[j]); mag += (t[i * n + j] * x[j]).abs(); }
+        let res = s.add_f(-b[i]).val().abs();
+        if res > 2.0 * (n as f64 + 1.0) * EPS * (mag + b[i].abs()) + 1e-300 { out.push(Finding { class: format!("{}:residual", form), what: format!("(T.x - b)[{}] = {:e}, allowed {:e}", i, res, 2.0 * (n as f64 + 1.0) * EPS * (mag + b[i].abs())), input: input.to_string() }); return; }
+    }
+}
+
+pub fn oracle(tier: &str, seed: u64) -> (u64, Vec<Finding>) {
+    let mut r = Rng::new(seed ^ 0x0C11);
+    let mut out: Vec<Finding> = vec![]; let mut tried = 0u64;
+    let thorough = tier == "thorough";
+    // (a) ipiv_parity = sign of the permutation, for every permutation of 0..n
+    for n in 0..=(if thorough { 8usize } else { 6 }) {
+        for p in all_perms(n) {
+            tried += 1;
+            crumb(&format!("ipiv_parity ipiv={:?}", p));
+            let got = catch(|| ipiv_parity(&p)); let want = sign_by_cycles(&p);
+            if got != Ok(want) { out.push(Finding { class: "ipiv_parity:not-the-sign-of-the-permutation".into(), what: format!("ipiv_parity returned {:?}, the permutation has sign {}", got, want), input: format!("ipiv={:?}", p) }); break; }
+        }
+    }
+    // the matrix behind D2: every column pivots on the next row, pivot vector [1,2,3,0], determinant -16^4 (all operations exact)
+    {
+        let w = vec![0., 0., 0., 16., 16., 0., 0., 0., 0., 16., 0., 0., 0., 0., 16., 0.];
+        let inp = format!("n=4 a={}", json_floats(&w));
+        tried += 1; crumb(&format!("Matrix::det {}", inp));
+        let got = catch(|| mk(&w, 4, 4).det());
+        if got != Ok(-65536.0) { out.push(Finding { class: "Matrix::det:wrong-sign".into(), what: format!("det returned {:?}, exact determinant is -65536", got), input: inp }); }
+    }
+    let iters = if thorough { 40000 } else { 4000 };
+    for it in 0..iters {
+        if out.len() > 30 { break; }
+        let big = it % 12 == 0;
+        let n = if big { 13 + r.below(20) as usize } else { 1 + r.below(12) as usize };
+        // (b) LU of general matrices (finite, moderate entries)
+        let c = *r.pick(&[0usize, 1, 2, 3, 4, 5, 6, 9, 11, 12, 13]);
+        let a = gen_matrix(&mut r, n, c);
+        let input = format!("class={} n={} a={}", CLASSES[c], n, json_floats(&a));
+        tried += 2;
+        crumb(&format!("lu / Matrix::lu / lu_solve / Matrix::solve {}", input));
+        let res = catch(|| lu(&a));
+        match &res { Ok((l, p)) => check_lu(&mut out, "lu", &a, n, l, p, &input), Err(e) => out.push(Finding { class: "lu:panics-on-square-input".into(), what: e.clone(), input: input.clone() }) }
+        let resm = catch(|| { let (l, p) = mk(&a, n, n).lu(); (l.data.v.clone(), p) });
+        match (&res, &resm) {
+            (Ok((l, p)), Ok((lm, pm))) => { if l.iter().map(|x| x.to_bits()).ne(lm.iter().map(|x| x.to_bits())) || p != pm { out.push(Finding { class: "Matrix::lu:differs-from-slice-lu".into(), what: "slice and Matrix LU return different factors (same algorithm: must be identical)".into(), input: input.clone() }); } }
+            (_, Err(e)) => out.push(Finding { class: "Matrix::lu:panics-on-square-input".into(), what: e.clone(), input: input.clone() }),
+            _ => {}
+        }
+        // (c) lu_solve: |P.b - L.U.x| small whenever U has a safely nonzero diagonal
+        if let Ok((l, p)) = &res {
+            let b = rhs(&mut r, n);
+            let dmin = (0..n).map(|i| l[i * n + i].abs()).fold(f64::INFINITY, f64::min);
+            let umax = l.iter().fold(0.0f64, |m, x| m.max(x.abs()));
+            if dmin > 1e-6 * umax && finite(l) {
+                for (form, x) in [("lu_solve", catch(|| lu_solve(l, p, &b))), ("Matrix::lu_solve", catch(|| mk(l, n, n).lu_solve(p, &Vector::new(b.clone())).v)), ("Matrix::solve", catch(|| mk(&a, n, n).solve(&Vector::new(b.clone())).v))] {
+                    tried += 1;
+                    match x {
+                        Err(e) => out.push(Finding { class: format!("{}:panics-on-valid-input", form), what: e, input: input.clone() }),
+                        Ok(x) => {
+                            if x.len() != n || !finite(&x) { out.push(Finding { class: format!("{}:nonfinite-solution-of-regular-system", form), what: format!("x = {:?}", x), input: format!("{} b={}", input, json_floats(&b)) }); continue; }
+                            // y = U.x with magnitudes, then L.y against P.b
+                            let mut worst = None;
+                            for i in 0..n {
+                                let mut s = DD::zero(); let mut mag = 0.0;
+                                for k in 0..n { // (L.U)[i][k] accumulated directly: sum_m L[i][m] U[m][k] x[k]
+                                    for m in 0..=i.min(k) { let lim = if m == i { 1.0 } else { l[i * n + m] }; let t = lim * l[m * n + k]; let (q, e) = two_prod(t, x[k]); s = s.add_f(q).add_f(e); mag += (t * x[k]).abs(); }
+                                }
+                                let res = s.add_f(-b[p[i] as usize]).val().abs();
+                                // products t = l*u are rounded once (relative u), covered by the factor below
+                                if res > 8.0 * (n as f64 + 1.0) * EPS * (mag + b[p[i] as usize].abs()) + 1e-300 { worst = Some((i, res, mag)); break; }
+                            }
+                            if let Some((i, res, mag)) = worst { out.push(Finding { class: format!("{}:residual", form), what: format!("(L.U.x - P.b)[{}] = {:e} with |L||U||x| = {:e}", i, res, mag), input: format!("{} b={}", input, json_floats(&b)) }); }
+                        }
+                    }
+                }
+            }
+        }
+        // (d) determinant of small integer matrices against exact fraction-free elimination
+        {
+            let nd = 1 + r.below(6) as usize;
+            let cd = *r.pick(&[1usize, 1, 2, 3, 4, 5, 6]);
+            let mut ad = gen_matrix(&mut r, nd, cd);
+            for x in ad.iter_mut() { *x = x.max(-5.0).min(5.0); }
+            let exact = bareiss(&ad, nd) as f64;
+            let h: f64 = (0..nd).map(|i| (0..nd).map(|j| ad[i * nd + j] * ad[i * nd + j]).sum::<f64>().sqrt()).product();
+            let inp = format!("class={} n={} a={}", CLASSES[cd], nd, json_floats(&ad));
+            tried += 2;
+            crumb(&format!("Matrix::det / Matrix::lu_det {}", inp));
+            let tol = 1e-9 * h + 1e-300;
+            match catch(|| mk(&ad, nd, nd).det()) {
+                Err(e) => out.push(Finding { class: "Matrix::det:panics-on-square-input".into(), what: e, input: inp.clone() }),
+                Ok(d) => if !((d - exact).abs() <= tol) {
+                    let class = if (d + exact).abs() <= tol { "Matrix::det:wrong-sign" } else { "Matrix::det:wrong-value" };
+                    out.push(Finding { class: class.into(), what: format!("det returned {:e}, exact integer determinant is {:e}", d, exact), input: inp.clone() });
+                }
+            }
+            match catch(|| { let (l, p) = mk(&ad, nd, nd).lu(); l.lu_det(&p) }) {
+                Err(e) => out.push(Finding { class: "Matrix::lu_det:panics-on-square-input".into(), what: e, input: inp.clone() }),
+                Ok(d) => if !((d - exact).abs() <= tol) {
+                    let class = if (d + exact).abs() <= tol { "Matrix::lu_det:wrong-sign" } else { "Matrix::lu_det:wrong-value" };
+                    out.push(Finding { class: class.into(), what: format!("lu_det returned {:e}, exact integer determinant is {:e}", d, exact), input: inp.clone() });
+                }
+            }
+        }
+        // (e) Cholesky of SPD matrices (condition number up to about 1e8), both forms
+        {
+            let ns = if big { 13 + r.below(20) as usize } else { 1 + r.below(12) as usize };
+            let cls = if r.coin(0.5) { 7 } else { 8 };
+            let mut s = gen_matrix(&mut r, ns, cls);
+            if cls == 7 && r.coin(0.4) { // congruence with a graded diagonal: condition number up to ~1e8, still SPD
+                let d: Vec<f64> = (0..ns).map(|_| (2.0f64).powi(r.range(-13, 13) as i32)).collect();
+                for i in 0..ns { for j in 0..ns { s[i * ns + j] *= d[i] * d[j]; } }
+            }
+            let inp = format!("class={} n={} a={}", CLASSES[cls], ns, json_floats(&s));
+            tried += 2;
+            crumb(&format!("cholesky / Matrix::cholesky / cholesky_solve {}", inp));
+            let l1 = catch(|| cholesky(&s)); let l2 = catch(|| mk(&s, ns, ns).cholesky().data.v.clone());
+            match &l1 { Ok(l) => check_chol(&mut out, "cholesky", &s, ns, l, &inp), Err(e) => out.push(Finding { class: "cholesky:panics-on-spd-input".into(), what: e.clone(), input: inp.clone() }) }
+            match &l2 { Ok(l) => check_chol(&mut out, "Matrix::cholesky", &s, ns, l, &inp), Err(e) => out.push(Finding { class: "Matrix::cholesky:panics-on-spd-input".into(), what: e.clone(), input: inp.clone() }) }
+            if let (Ok(a1), Ok(a2)) = (&l1, &l2) {
+                // identical in exact arithmetic; in binary64 both are backward stable, so they agree to cond.n.u
+                {
+                    let m = a1.iter().fold(0.0f64, |m, x| m.max(x.abs()));
+                    let tolf = if cls == 8 { 1e-9 } else { 1e-5 };
+                    if a1.len() == a2.len() { for k in 0..a1.len() { if (a1[k] - a2[k]).abs() > tolf * m { out.push(Finding { class: "cholesky:slice-and-Matrix-factors-differ".into(), what: format!("entry {} differs: {:e} vs {:e}", k, a1[k], a2[k]), input: inp.clone() }); break; } } }
+                }
+                // cholesky_solve inverts: residual of A.x = b through the factor, |L.L^T.x - b| small
+                let b = rhs(&mut r, ns);
+                for (form, x) in [("cholesky_solve", catch(|| cholesky_solve(a1, &b))), ("Matrix::cholesky_solve", catch(|| mk(a1, ns, ns).cholesky_solve(&Vector::new(b.clone())).v))] {
+                    tried += 1;
+                    match x {
+                        Err(e) => out.push(Finding { class: format!("{}:panics-on-valid-input", form), what: e, input: inp.clone() }),
+                        Ok(x) => {
+                            if x.len() != ns || !finite(&x) { out.push(Finding { class: format!("{}:nonfinite-solution-of-regular-system", form), what: format!("x = {:?}", x), input: inp.clone() }); continue; }
+                            for i in 0..ns {
+                                let mut sacc = DD::zero(); let mut mag = 0.0;
+                                for k in 0..ns { for m in 0..=i.min(k) { let t = a1[i * ns + m] * a1[k * ns + m]; let (q, e) = two_prod(t, x[k]); sacc = sacc.add_f(q).add_f(e); mag += (t * x[k]).abs(); } }
+                                let res = sacc.add_f(-b[i]).val().abs();
+                                if res > 8.0 * (ns as f64 + 1.0) * EPS * (mag + b[i].abs()) + 1e-300 { out.push(Finding { class: format!("{}:residual", form), what: format!("(L.L^T.x - b)[{}] = {:e} with |L||L^T||x| = {:e}", i, res, mag), input: format!("{} b={}", inp, json_floats(&b)) }); break; }
+                            }
+                        }
+                    }
+                }
+            }
+        }
+        // (f) triangular solves invert triangular systems (diagonal bounded away from zero), slice and Matrix forms
+        {
+            let nt = 1 + r.below(if big { 32 } else { 12 }) as usize;
+            let mut lo = gen_matrix(&mut r, nt, 12); let mut up = gen_matrix(&mut r, nt, 13);
+            for i in 0..nt { if lo[i * nt + i].abs() < 0.5 { lo[i * nt + i] = 1.0 + r.unit(); } if up[i * nt + i].abs() < 0.5 { up[i * nt + i] = -1.0 - r.unit(); } }
+            let b = rhs(&mut r, nt);
+            let inl = format!("n={} l={} b={}", nt, json_floats(&lo), json_floats(&b));
+            let inu = format!("n={} u={} b={}", nt, json_floats(&up), json_floats(&b));
+            tried += 4;
+            crumb(&format!("forward_substitution (slice, Matrix) {} ; backward_substitution (slice, Matrix) {}", inl, inu));
+            match catch(|| forward_substitution(&lo, &b)) { Ok(x) => check_tri(&mut out, "forward_substitution", &lo, nt, true, &x, &b, &inl), Err(e) => out.push(Finding { class: "forward_substitution:panics-on-valid-input".into(), what: e, input: inl.clone() }) }
+            match catch(|| mk(&lo, nt, nt).forward_substitution(&b).v) { Ok(x) => check_tri(&mut out, "Matrix::forward_substitution", &lo, nt, true, &x, &b, &inl), Err(e) => out.push(Finding { class: "Matrix::forward_substitution:panics-on-valid-input".into(), what: e, input: inl.clone() }) }
+            match catch(|| backward_substitution(&up, &b)) { Ok(x) => check_tri(&mut out, "backward_substitution", &up, nt, false, &x, &b, &inu), Err(e) => out.push(Finding { class: "backward_substitution:panics-on-valid-input".into(), what: e, input: inu.clone() }) }
+            match catch(|| mk(&up, nt, nt).backward_substitution(&b).v) { Ok(x) => check_tri(&mut out, "Matrix::backward_substitution", &up, nt, false, &x, &b, &inu), Err(e) => out.push(Finding { class: "Matrix::backward_substitution:panics-on-valid-input".into(), what: e, input: inu.clone() }) }
+        }
+        // (g) rejection: non-symmetric input to cholesky, wrong right-hand-side lengths, non-square slices
+        if it % 5 == 0 {
+            let n2 = 2 + r.below(5) as usize;
+            let mut a2 = gen_matrix(&mut r, n2, 8); a2[1] += 1.0;
+            tried += 4;
+            crumb(&format!("rejection tests: cholesky a={} ; substitutions with len(b)=n+1, n={}", json_floats(&a2), n2));
+            if catch(|| cholesky(&a2)).is_ok() { out.push(Finding { class: "cholesky:accepts-nonsymmetric-input".into(), what: "cholesky returned a factor for a matrix with a[0][1] != a[1][0]".into(), input: format!("a={}", json_floats(&a2)) }); }
+            if catch(|| mk(&a2, n2, n2).cholesky()).is_ok() { out.push(Finding { class: "Matrix::cholesky:accepts-nonsymmetric-input".into(), what: "Matrix::cholesky returned a factor for a matrix with a[0][1] != a[1][0]".into(), input: format!("a={}", json_floats(&a2)) }); }
+            let sq = gen_matrix(&mut r, n2, 12); let bad = rhs(&mut r, n2 + 1);
+            if catch(|| forward_substitution(&sq, &bad)).is_ok() || catch(|| backward_substitution(&sq, &bad)).is_ok() || catch(|| cholesky_solve(&sq, &bad)).is_ok() { out.push(Finding { class: "substitution:accepts-wrong-length-rhs".into(), what: "a triangular solve accepted a right-hand side of the wrong length".into(), input: format!("n={} len(b)={}", n2, n2 + 1) }); }
+            let ns = vec![1.0; n2 * n2 + 1];
+            if catch(|| lu(&ns)).is_ok() || catch(|| cholesky(&ns)).is_ok() { out.push(Finding { class: "factorisation:accepts-non-square-slice".into(), what: format!("lu or cholesky accepted a slice of length {}", ns.len()), input: format!("len={}", ns.len()) }); }
+        }
+    }
+    (tried, out)
+}
